@@ -190,10 +190,14 @@ variable {κ ω α : Type} [DecidableEq κ]
 
 /-- The table with every pointer resolved to the inputs `ids n` of its link object — the value
 table (`Model/Derived.lean`) that `remove_component` / `add_component_link` see. -/
-def resolve (ids : NodeId → List κ) (t : HTable κ α) : HTable κ α :=
-  t.map fun p => (p.1, match p.2 with
-    | .derived (.func _ n rv) => .derived (.func (ids n) n rv)
-    | c => c)
+def resolveC (ids : NodeId → List κ) : Comp κ NodeId α → Comp κ NodeId α
+  | .derived (.func _ n rv) => .derived (.func (ids n) n rv)
+  | c => c
+
+def resolveE (ids : NodeId → List κ) (p : κ × Comp κ NodeId α) : κ × Comp κ NodeId α :=
+  (p.1, resolveC ids p.2)
+
+def resolve (ids : NodeId → List κ) (t : HTable κ α) : HTable κ α := t.map (resolveE ids)
 
 /-- Reader of the Impl: the list cells. -/
 def Heap.cellIds (h : Heap κ ω α) (n : NodeId) : List κ := (h.fromIds? n).getD []
@@ -317,8 +321,13 @@ def resolvesH : Nat → State κ ω α → Tgt κ → Bool
 /-! ### `remove_component` -/
 
 /-- `[cid for cid in self.derived_components if component_id in comp.link.get_from_ids()]`. -/
+def depPredH (ids : NodeId → List κ) (k : κ) (p : κ × Comp κ NodeId α) : Bool :=
+  match nodeOf p.2 with
+  | some n => (ids n).contains k
+  | none => false
+
 def dependOnH (ids : NodeId → List κ) (t : HTable κ α) (k : κ) : List κ :=
-  (t.filter fun p => match nodeOf p.2 with | some n => (ids n).contains k | none => false).map (·.1)
+  (t.filter (depPredH ids k)).map (·.1)
 
 /-- **Impl**: `Data._remove_component` on the pointer table; `ids = h.cellIds` (the recursion of
 `Model/Derived.removeComp`, inputs read from the heap at every step). -/
@@ -356,6 +365,10 @@ the elements of the list object `_from`; `BinaryComponentLink.replace_ids` then 
 *is* `old`, or calls `replace_ids` on it if it is a link object — the same for `_right`;
 `ParsedComponentLink.replace_ids` also rewrites the reference dict of its `ParsedCommand` object.
 A link object that is reachable along several paths is visited once per path. -/
+def replaceOp (rec : Heap κ ω α → NodeId → Heap κ ω α) (h : Heap κ ω α) : Opnd κ α → Heap κ ω α
+  | .link m => rec h m
+  | _ => h
+
 def replaceIds (old new : κ) : Nat → Heap κ ω α → NodeId → Heap κ ω α
   | 0, h, _ => h
   | fuel + 1, h, n =>
@@ -363,12 +376,8 @@ def replaceIds (old new : κ) : Nat → Heap κ ω α → NodeId → Heap κ ω 
     | none => h
     | some (.binary o l r frm) =>
       let h0 := (h.renList frm old new).renDef n old new
-      let h1 := match l with
-        | .link m => replaceIds old new fuel h0 m
-        | _ => h0
-      let h2 := match r with
-        | .link m => replaceIds old new fuel h1 m
-        | _ => h1
+      let h1 := replaceOp (replaceIds old new fuel) h0 l
+      let h2 := replaceOp (replaceIds old new fuel) h1 r
       h2.setNode n (.binary o (l.ren old new) (r.ren old new) frm)
     | some (.func _ _ frm) => (h.renList frm old new).renDef n old new
     | some (.parsed c frm) => ((h.renList frm old new).renDef n old new).renCmd c old new
